@@ -357,6 +357,11 @@ def _delta_arrays(ctx):
     from ..idioms import check_delta_arrays
     check_delta_arrays(ctx, [m for m in ctx.index.modules if m.startswith("bionumpy.sequence") or m == "bionumpy.encodings.kmer_encodings"], "C13-R8")
 
+def _counts_not_written_in_place(ctx):
+    from .c20 import r3_self_array_writes
+    r3_self_array_writes(ctx, ("bionumpy.sequence.count_encoded", "bionumpy.sequence.kmers", "bionumpy.sequence.position_weight_matrix", "bionumpy.sequence.minimizers",
+                               "bionumpy.sequence.rollable", "bionumpy.sequence.string_matcher", "bionumpy.encodings.kmer_encodings"), floor=0)
+
 RULES = [
     ("C13-R1", r1_trailing_trim),
     ("C13-R2", r2_hash_weights),
@@ -368,4 +373,5 @@ RULES = [
     ("C13-T1", _through_time),
     ("C13-T2", _small_edits),
     ("C13-R8", _delta_arrays),
+    ("C13-R9", _counts_not_written_in_place),
 ]
